@@ -8,18 +8,4 @@ CHECKS = {
 }
 
 
-def replay(prop, path):
-  """re-run exactly the recorded failing case"""
-  with open(path) as f:
-    case = json.load(f)
-  if "chart" in case and "ops" in case:
-    from harness import chartgen, hsmtrace
-    ev = chartgen.run_chart(case["chart"], case["ops"])
-    v, _ = hsmtrace.validate([{"tid": 0, "chart": case["chart"], "ev": ev}])
-    print(json.dumps(v[0])[:3000])
-    if "bad" in v[0]:
-      print("VIOLATION property=%s replay=%s" % (prop, path))
-      return 1
-    return 0
-  print("unknown replay format")
-  return 2
+from checks.replay import replay  # noqa: E402  (./check Cxx --replay <file>)
